@@ -27,6 +27,9 @@ ASSUMPTIONS = ["every referenced column is present in the table (a reference to 
                "unordered)", "schema 8.3.0"]
 
 VERSION = "8.3.0"
+# cell texts that pandas' default NA handling (kept on by the text loader) turns into a missing cell
+PANDAS_NA_TEXTS = {"None", "NA", "N/A", "NULL", "null", "NaN", "nan", "-NaN", "-nan", "<NA>", "#N/A", "#NA", "n/a",
+                   "#N/A N/A", "1.#IND", "-1.#IND", "1.#QNAN", "-1.#QNAN"}
 
 
 @st.composite
@@ -152,6 +155,8 @@ def oracle(case):
         tree = gen_tab.parsed_tree(got) or []
         if gen_tab.canon(tree) != gen_tab.canon(exp):
             why = "ref-literal-left" if "{" in got else ("absent-ref" if absent_ref else "other")
+            if case["mode"] in ("tsv", "file") and any(c in PANDAS_NA_TEXTS for c in rows[i]):
+                why = "cell-text-read-as-missing"      # e.g. the HED tag 'None' alone in a cell of a file
             out.bad(f"assembled-annotation-differs:{why}", f"got {got!r} expected tree {exp}; {ctx}")
     # the caller edits a cell: the next assembly must describe the edited table
     edit = case.get("edit")
